@@ -50,12 +50,16 @@ func runPure(c PureCase, tr tracer) verdict {
 	}
 	scripts := [2][]byte{deliveryScript(c.SA, 0), deliveryScript(c.SB, 1)}
 	ref := refClose(gross, c.Dust, c.Fee, payer, scripts)
+	if c.Mode == "seq" {
+		// custom sequence = the RBF flow: OP_RETURN delivery scripts burn
+		ref = ref.withOpReturn(scripts)
+	}
 	v := verdict{}
 	flow := "legacy"
 	if c.Payer >= 0 {
 		flow = "custom-payer"
 	}
-	v.cell = fmt.Sprintf("pure|%s|open%s|pay%s|%s|%s|%s|%s", c.Type, partyName(c.Opener), partyName(payer), flow, c.Mode, ref.shape(), feeClass(c.Fee, gross[payer], c.Dust[payer]))
+	v.cell = fmt.Sprintf("pure|%s|open%s|pay%s|%s|%s|%s|%s", c.Type, partyName(c.Opener), partyName(payer), flow, c.Mode, ref.shape()+ref.tie(), feeClass(c.Fee, gross[payer], c.Dust[payer]))
 	fail := func(sig, f string, a ...any) verdict {
 		v.sig = fmt.Sprintf("pure:%s:%s/%s", sig, c.Type, flow)
 		v.what = fmt.Sprintf(f, a...) + fmt.Sprintf(" [case %+v gross=%v]", c, gross)
@@ -146,6 +150,9 @@ func runPure(c PureCase, tr tracer) verdict {
 	return v
 }
 
+// pureOpRet: script pairs with an OP_RETURN on one side or both (rotated over the lattice).
+var pureOpRet = [][2]string{{"opret", "p2wkh"}, {"p2tr", "opret"}, {"opret", "opret1"}, {"opret1", "p2wsh"}}
+
 // pureLattice enumerates the lattice; emit returns false to stop.
 func pureLattice(thorough bool, emit func(PureCase) bool) {
 	types := chanmc.AllTypes
@@ -200,6 +207,10 @@ func pureLattice(thorough bool, emit func(PureCase) bool) {
 									fs[gross[pp]-d[pp]+k] = true
 								}
 								fs[gross[pp]+100_000] = true
+								// the fee that leaves both parties the same amount (BIP69 tie: the
+								// order of the two outputs is decided by the script bytes)
+								tie := gross[pp] - gross[1-pp]
+								fs[tie] = true
 								for _, fee := range sortedKeys(fs) {
 									if fee < 0 {
 										continue
@@ -208,6 +219,21 @@ func pureLattice(thorough bool, emit func(PureCase) bool) {
 										sc := scripts[(mi+int(fee))%len(scripts)]
 										if !emit(PureCase{Type: typ, Opener: opener, Stored: st, CommitFee: cf, Fee: fee, Payer: payer, Dust: d, Mode: mode, SA: sc[0], SB: sc[1]}) {
 											return
+										}
+										if fee == tie {
+											// every script pair (A's script sorts before B's and after it)
+											for _, sc2 := range scripts {
+												if sc2 != sc && !emit(PureCase{Type: typ, Opener: opener, Stored: st, CommitFee: cf, Fee: fee, Payer: payer, Dust: d, Mode: mode, SA: sc2[0], SB: sc2[1]}) {
+													return
+												}
+											}
+										}
+										if mode == "seq" && (thorough || (cf == commitFees[0] && d != dusts[2])) {
+											// simple close: OP_RETURN delivery script of A, of B, of both
+											op := pureOpRet[(int(fee%7)+int(st[0]%5)+int(st[1]%3))%len(pureOpRet)]
+											if !emit(PureCase{Type: typ, Opener: opener, Stored: st, CommitFee: cf, Fee: fee, Payer: payer, Dust: d, Mode: mode, SA: op[0], SB: op[1]}) {
+												return
+											}
 										}
 									}
 								}
